@@ -1707,7 +1707,7 @@ class Qube(object):
         if key in result._derivs_:
             if method == 'insert':
                 raise ValueError('derivative "%s" already exists in %s object'
-                                 % (key, type(self).__name))
+                                 % (key, type(self).__name__))
 
             if method == 'add':
                 value = value + result._derivs_[key]
